@@ -603,16 +603,18 @@ func (w *worker[T, JobType]) TunePool(concurrency int) error {
 
 	shrinkPoolSize, minIdleWorkers := oldConcurrency-safeConcurrency, w.numMinIdleWorkers()
 
-	// if current concurrency is greater than the safe concurrency, shrink the pool size
-	for shrinkPoolSize > 0 && w.pool.Len() > minIdleWorkers {
-		if node := w.pool.PopBack(); node != nil {
-			w.pool.Remove(node)
-			node.Value.Stop()
-			w.pool.Cache.Put(node)
-			shrinkPoolSize--
-		} else {
+	// if current concurrency is greater than the safe concurrency, shrink the pool size;
+	// the length check and the removal are one step of the list, so that a worker finishing
+	// in between (and retiring itself because the pool looked full) cannot leave the pool empty
+	for shrinkPoolSize > 0 {
+		node := w.pool.PopBackIfLonger(minIdleWorkers)
+		if node == nil {
 			break
 		}
+
+		node.Value.Stop()
+		w.pool.Cache.Put(node)
+		shrinkPoolSize--
 	}
 
 	return nil
